@@ -686,6 +686,68 @@ def r_split(ctx, model):
                nontrivial_key=("split", what))
 
 
+def r_split_values(ctx, model, prop="C03"):
+    """what split_ads_data computes, decided by interpretation on concrete pressure sequences with non-default row labels: points up to
+    and including the (first) pressure maximum are adsorption (0), the points after it desorption (1); a maximum at the last point
+    means no desorption; a maximum at the first point (that is not also the last) means desorption only"""
+    import numpy as _np
+    import sympy as _sp
+    from ..absint import Obj
+    from ..domain import make_interp
+    from ..ndsym import install_nd, to_np
+    ctx.rule("R-split (values): split_ads_data interpreted on concrete pressure sequences (labels != positions): marks == "
+             "[0]*(k+1) + [1]*(n-k-1) for the first maximum at position k, all 0 if k is last, all 1 if k is first and not last")
+    fi = model.func("pygaps.utilities.math_utilities.split_ads_data")
+    I = make_interp(model)
+    install_nd(I)
+    R = _sp.Rational
+    I.libattr[("SplitFrame", "shape")] = lambda I, v, n: (_sp.Integer(len(v.attrs["p"])), _sp.Integer(2))
+    I.libattr[("SplitFrame", "index")] = lambda I, v, n: Obj(kind="SplitIndex", label="index", attrs=v.attrs)
+    I.libmeth[("SplitFrame", "__getitem__")] = lambda I, v, a, k, n: Obj(kind="SplitCol", label="pressure", attrs=v.attrs) if a[0] == "pressure" \
+        else I.err(n, f"split_ads_data reads column {a[0]!r}")
+    I.libmeth[("SplitFrame", "__len__")] = lambda I, v, a, k, n: _sp.Integer(len(v.attrs["p"]))
+    first_max = lambda v: max(range(len(v.attrs["p"])), key=lambda i: (v.attrs["p"][i], -i))
+    I.libmeth[("SplitCol", "idxmax")] = lambda I, v, a, k, n: v.attrs["labels"][first_max(v)]
+    I.libmeth[("SplitCol", "argmax")] = lambda I, v, a, k, n: _sp.Integer(first_max(v))
+    I.libmeth[("SplitCol", "max")] = lambda I, v, a, k, n: max(v.attrs["p"])
+    I.libmeth[("SplitCol", "to_numpy")] = lambda I, v, a, k, n: _np.array(list(v.attrs["p"]), dtype=object)
+    I.libattr[("SplitCol", "values")] = lambda I, v, n: _np.array(list(v.attrs["p"]), dtype=object)
+    I.libattr[("SplitCol", "index")] = lambda I, v, n: Obj(kind="SplitIndex", label="index", attrs=v.attrs)
+    I.libmeth[("SplitCol", "__len__")] = lambda I, v, a, k, n: _sp.Integer(len(v.attrs["p"]))
+    I.libmeth[("SplitIndex", "get_loc")] = lambda I, v, a, k, n: _sp.Integer(v.attrs["labels"].index(a[0])) if a[0] in v.attrs["labels"] \
+        else (_ for _ in ()).throw(I.fault("KeyError", n, f"label {a[0]!r} not in the index (a position was used as a label?)"))
+    I.libmeth[("SplitIndex", "__getitem__")] = lambda I, v, a, k, n: v.attrs["labels"][int(I.to_py(a[0], n))]
+    old_len = I.ext["builtins.len"]
+    I.ext["builtins.len"] = lambda I, a, k, n: _sp.Integer(len(a[0].attrs["p"])) if isinstance(a[0], Obj) and a[0].kind in ("SplitFrame", "SplitCol", "SplitIndex") \
+        else old_len(I, a, k, n)
+    I.ext["numpy.argmax"] = lambda I, a, k, n: _sp.Integer(first_max(a[0])) if isinstance(a[0], Obj) and a[0].kind == "SplitCol" else I.err(n, "argmax of an unknown value")
+    seqs = [[1, 2, 3], [3, 2, 1], [1, 3, 2], [1, 2, 4, 3, 1], [R(1, 10), R(1, 5), R(2, 5), R(4, 5), 1, R(7, 10)], [1, R(1, 2)], [5], [1, 3, 3, 2], [2, 1, 3],
+            [1, 2, 3, 4, 5, 4, 3]]
+    nrun = 0
+    for seq in seqs:
+        n = len(seq)
+        k = max(range(n), key=lambda i: (seq[i], -i))
+        want = [0] * n if k == n - 1 else [1] * n if k == 0 else [0] * (k + 1) + [1] * (n - k - 1)
+        frame = lambda: Obj(kind="SplitFrame", label="data", attrs={"p": [_sp.sympify(x) for x in seq], "labels": [_sp.Integer(100 + 7 * i) for i in range(n)]})
+        outs = I.explore(lambda I: I.call_func(fi, [frame(), "pressure"], {}, None))
+        nrun += 1
+        got = None
+        if len(outs) == 1 and outs[0].kind == "ok":
+            v = to_np(I, outs[0].value)
+            try:
+                got = [int(bool(x)) if isinstance(x, bool) else int(x) for x in list(v)]
+            except (TypeError, ValueError):
+                got = repr(v)
+        else:
+            got = f"{[repr(o)[:80] for o in outs[:2]]}"
+        ctx.ob(got == want, Finding(f"{prop}.R-split", fi.where, f"split_ads_data|values|n={n}|max-at={'last' if k == n - 1 else 'first' if k == 0 else 'inner'}"
+                                    + ("|one-after" if k == n - 2 and k != 0 else ""),
+                                    f"split_ads_data on pressures {[str(x) for x in seq]} marks {got}; required {want} (adsorption up to and including the "
+                                    "pressure maximum, desorption after it): the branch split must depend only on the sequence of pressures"),
+               nontrivial_key=("split-values", tuple(map(str, seq))))
+    ctx.floor("split_ads_data sequences interpreted", nrun, 8)
+
+
 def r_order(ctx, model, prop="C03"):
     """get_iso_loading_and_pressure_ordered, interpreted on a stub isotherm (any stored pressure mode) whose accessors record
     their keyword arguments and return tagged arrays"""
@@ -808,6 +870,7 @@ def run(ctx: Ctx):
              "(stored representation x request); result must be F_out * g(F_in * x) with C02's oracle factors")
     r_interp(ctx, model)
     r_split(ctx, model)
+    r_split_values(ctx, model)
     r_order(ctx, model)
     r_scale(ctx, model)
     from ..sites import conversions_drop_caches
